@@ -73,6 +73,12 @@ def h_written_hdf5_is_valid(nr, nc, typ):
     b = B()
     md = pick(['none', 'both'], 'md')
     t, a = make_table(nr, nc, md=md, zeros=1, type_=typ)
+    origin = pick(['constructed', 'from_json', 'parse_biom_table:json', 'from_hdf5'], 'origin')
+    if origin != 'constructed':       # the library also writes tables it has read itself (biom convert)
+        from checks.ops import load_via
+        t, e, a = load_via(origin, t, a, type_=typ)
+        if e is not None:
+            raise Abort()
     store = new_store()
     t.to_hdf5(store, 'verif', creation_date=DATE)
     via = pick(['_validate_hdf5', 'run'], 'entry')
@@ -91,7 +97,7 @@ def h_written_hdf5_is_valid(nr, nc, typ):
             r = {'valid_table': r[0], 'report_lines': r[1]}
     else:
         r, e = call(lambda: _validator()._validate_hdf5(table=store, format_version='2.1'))
-    sig = dict(type=typ, entry=via)
+    sig = dict(type=typ, entry=via, origin=origin)
     if e is not None:
         fail('hdf5:validator-raised', f"{type(e).__name__}: {e}"[:160], **sig)
     elif not r['valid_table']:
